@@ -645,6 +645,10 @@ func parseContractText(pkg, fname, text string) (*ContractFile, error) {
 			for _, m := range strings.Split(rest, ",") {
 				cur.Modifies = append(cur.Modifies, strings.TrimSpace(m))
 			}
+		case "guarded":
+			if err := flush(); err != nil {
+				return nil, err
+			}
 		case "ghostset":
 			if err := flush(); err != nil {
 				return nil, err
